@@ -50,6 +50,18 @@ def sea_cases(out: Outcome, rng, n_cases: int, lines, expect) -> None:
                 break
             lines.append(f"sea label {block} {f2h(noise)} {f2h(X[0])} {f2h(X[1])} {f2h(r)} {coin}")
             expect.append((str(int(y)), rep))
+        else:
+            # the whole dataset on the recorded draws through the generator model (`Synth2.seaDataset`): every label, and the tape consumed exactly
+            np.random.seed(seed)
+            floats, coins = [], []
+            for _ in range(n):
+                u = np.random.uniform(low=0.0, high=10.0, size=(3,))
+                r = np.random.random()
+                floats += [float(u[0]), float(u[1]), float(u[2]), float(r)]
+                if r < noise:
+                    coins.append(int(np.random.randint(2)))
+            lines.append(f"sea ds {block} {f2h(noise)} {n} {len(floats)} " + " ".join(f2h(v) for v in floats) + (" " + " ".join(map(str, coins)) if coins else ""))
+            expect.append((" ".join(str(int(y)) for _, y in data) + " | 0 0", rep))
         again = list(SEA(seed=seed).generate_dataset(block=block, noise=noise, num_samples=n))
         if any(not np.array_equal(a[0], b[0]) or a[1] != b[1] for a, b in zip(data, again)):
             out.violation("SEA: two generators with equal seeds produce different datasets", rep)
@@ -65,6 +77,28 @@ def sea_cases(out: Outcome, rng, n_cases: int, lines, expect) -> None:
                     out.violation(f"SEA: the {name} of two datasets requested from one generator (blocks {b1}, {b2}) is not labelled with its own block threshold", {"blocks": [b1, b2]})
                     break
         out.case({"generator": "SEA", "two_datasets": [b1, b2]})
+    # two live datasets of one generator pulled in an arbitrary interleaving: each `next()` consumes the global generator where it stands
+    # (the model's `Synth2.seaPulls` on the recorded draws)
+    for _ in range(4):
+        seed = rng.randint(0, 10**6)
+        specs = [(rng.choice([1, 2, 3, 4]), rng.choice([0.0, 0.3, 0.7]), rng.randint(2, 8)) for _ in range(2)]
+        g = SEA(seed=seed)
+        its = [g.generate_dataset(block=b, noise=z, num_samples=k) for (b, z, k) in specs]
+        sched = [0] * specs[0][2] + [1] * specs[1][2]
+        rng.shuffle(sched)
+        labels = [int(next(its[i])[1]) for i in sched]
+        np.random.seed(seed)
+        floats, coins = [], []
+        for i in sched:
+            u = np.random.uniform(low=0.0, high=10.0, size=(3,))
+            r = np.random.random()
+            floats += [float(u[0]), float(u[1]), float(u[2]), float(r)]
+            if r < specs[i][1]:
+                coins.append(int(np.random.randint(2)))
+        lines.append(f"sea pulls {len(sched)} {len(floats)} " + " ".join(f"{specs[i][0]} {f2h(specs[i][1])}" for i in sched) + " " +
+                     " ".join(f2h(v) for v in floats) + (" " + " ".join(map(str, coins)) if coins else ""))
+        expect.append((" ".join(map(str, labels)) + " | 0 0", {"generator": "SEA", "interleaved": specs, "schedule": sched, "seed": seed}))
+        out.case({"generator": "SEA", "interleaved": specs, "seed": seed})
     for case in range(n_cases // 2 + 1):
         seed, cls, n = rng.randint(0, 2**31 - 1), rng.choice([0, 1]), rng.randint(1, 40)
         if case < len(EDGE_SEEDS):
